@@ -1191,6 +1191,7 @@ result_t NumberDataType::parseInput(const string inputStr, unsigned int* parsedV
   } else if (inputStr.empty()) {
     return RESULT_ERR_EOF;  // input too short
   } else {
+    errno = 0;  // only set and never cleared by the conversion functions
     if (hasFlag(EXP)) {  // IEEE 754 binary32
       const char* str = inputStr.c_str();
       char* strEnd = nullptr;
